@@ -59,9 +59,17 @@ def digest(*vals):
 
 
 def deep(vm, v, depth=0):
-    """follow references so that a digest covers what the callee can read"""
-    if isinstance(v, Ref) and depth < 6:
+    """follow references (also inside aggregates) so that a digest covers what the callee can read"""
+    if depth > 8:
+        return v
+    if isinstance(v, Ref):
         return ('&', deep(vm, vm.deref(v), depth + 1))
+    if isinstance(v, Adt):
+        return Adt(v.ty, v.variant, tuple(deep(vm, f, depth + 1) for f in v.fields))
+    if isinstance(v, tuple):
+        return tuple(deep(vm, f, depth + 1) for f in v)
+    if isinstance(v, VecV):
+        return VecV(tuple(deep(vm, f, depth + 1) for f in v.items), v.kind)
     return v
 
 
